@@ -19,7 +19,10 @@ thread_local! {
     static LEDGER: RefCell<Ledger> = RefCell::new(Ledger::default());
     static ZST_LIVE: Cell<i64> = const { Cell::new(0) };
     static WATCH: Cell<usize> = const { Cell::new(0) };
-    static FREED: Cell<bool> = const { Cell::new(false) };
+    static WATCH_LAYOUT: Cell<(usize, usize)> = const { Cell::new((0, 0)) };
+    /// 0: not released, 1: released with the layout it was allocated with, 2: released with another layout
+    static FREED: Cell<u8> = const { Cell::new(0) };
+    static FREED_LAYOUT: Cell<(usize, usize)> = const { Cell::new((0, 0)) };
 }
 
 pub fn ledger_reset() {
@@ -76,37 +79,61 @@ unsafe impl GlobalAlloc for WatchingAlloc {
         System.alloc(layout)
     }
     unsafe fn dealloc(&self, ptr: *mut u8, layout: Layout) {
-        let _ = WATCH.try_with(|w| {
-            if w.get() != 0 && w.get() == ptr as usize {
-                let _ = FREED.try_with(|f| f.set(true));
-                w.set(0);
-            }
-        });
+        note_release(ptr, layout);
         System.dealloc(ptr, layout)
     }
     unsafe fn realloc(&self, ptr: *mut u8, layout: Layout, new_size: usize) -> *mut u8 {
-        let _ = WATCH.try_with(|w| {
-            if w.get() != 0 && w.get() == ptr as usize {
-                let _ = FREED.try_with(|f| f.set(true));
-                w.set(0);
-            }
-        });
+        note_release(ptr, layout);
         System.realloc(ptr, layout, new_size)
     }
+}
+
+fn note_release(ptr: *mut u8, layout: Layout) {
+    let _ = WATCH.try_with(|w| {
+        if w.get() != 0 && w.get() == ptr as usize {
+            let expected = WATCH_LAYOUT.try_with(|l| l.get()).unwrap_or((0, 0));
+            let got = (layout.size(), layout.align());
+            let _ = FREED_LAYOUT.try_with(|l| l.set(got));
+            let _ = FREED.try_with(|f| f.set(if expected == got { 1 } else { 2 }));
+            w.set(0);
+        }
+    });
 }
 
 #[global_allocator]
 static GLOBAL: WatchingAlloc = WatchingAlloc;
 
-pub fn alloc_watch(ptr: usize) {
-    FREED.with(|f| f.set(false));
+/// Watches the allocation at `ptr`, which was made with (size, align).
+pub fn alloc_watch(ptr: usize, size: usize, align: usize) {
+    FREED.with(|f| f.set(0));
+    WATCH_LAYOUT.with(|l| l.set((size, align)));
     WATCH.with(|w| w.set(ptr));
 }
 
-/// Stops watching; returns whether the watched allocation was released (or reallocated).
-pub fn alloc_unwatch() -> bool {
+#[derive(Clone, Copy, Debug, PartialEq, Eq)]
+pub enum Release {
+    NotReleased,
+    Released,
+    /// released (or reallocated) with a layout other than the one it was allocated with: (size, align)
+    WrongLayout(usize, usize),
+}
+
+/// State of the watched allocation (watching continues if it was not released).
+pub fn alloc_state() -> Release {
+    match FREED.with(|f| f.get()) {
+        0 => Release::NotReleased,
+        1 => Release::Released,
+        _ => {
+            let l = FREED_LAYOUT.with(|l| l.get());
+            Release::WrongLayout(l.0, l.1)
+        }
+    }
+}
+
+pub fn alloc_unwatch() -> Release {
+    let s = alloc_state();
     WATCH.with(|w| w.set(0));
-    FREED.with(|f| f.get())
+    s
 }
 
 // ---------------------------------------------------------------------------------------------
@@ -169,6 +196,28 @@ impl Elem for Plain8 {
     const TRACKED: bool = false;
     fn make(val: u32) -> Self {
         Plain8 { val, _tag: 0x7A7A }
+    }
+    fn id(&self) -> u64 {
+        0
+    }
+    fn val(&self) -> u32 {
+        self.val
+    }
+    fn set_val(&mut self, v: u32) {
+        self.val = v;
+    }
+}
+
+/// Another plain type with the layout of Plain8 (no drop glue on either side of a conversion).
+#[derive(Clone, Copy)]
+pub struct Plain8b {
+    _tag: u32,
+    val: u32,
+}
+impl Elem for Plain8b {
+    const TRACKED: bool = false;
+    fn make(val: u32) -> Self {
+        Plain8b { val, _tag: 0x5B5B }
     }
     fn id(&self) -> u64 {
         0
